@@ -72,12 +72,28 @@ def mutate(obj, rng):
 
 
 def one_event(seed: int) -> dict:
+    """never raises: an exception of the code under test while preparing the table is itself an event"""
+    try:
+        return _one_event(seed)
+    except Exception as ex:  # noqa: BLE001
+        empty = {"rows": [], "cols": []}
+        return {"g": {"getter": "setup"}, "pre": empty, "post": empty, "reps": [], "aliased": [], "cross": [],
+                "exc": f"during setup (reads / edits before the getter): {type(ex).__name__}: {ex}"[:200]}
+
+
+def _one_event(seed: int) -> dict:
     rng = random.Random(seed)
     state = rand_state(rng, 4, 5)
     table = tl.build_table(state, rng.choice(("max", "none", "rand")), rng)
     # a short history first, so that caches / layouts come from real edits
-    for _ in range(rng.choice((0, 0, 1, 3))):
+    for _ in range(rng.choice((0, 0, 1, 3, 5))):
         st = {k: v for k, v in tl.xml_project(table.serialize()).items() if k in ("rows", "cols")}
+        # reads that fill the row / cell caches BEFORE the next mutation
+        if rng.random() < 0.6:
+            try:
+                tl.live_reads(table, [k for k in tl.READ_KINDS if rng.random() < 0.4])
+            except Exception:  # noqa: BLE001, S110
+                pass
         try:
             tl.apply_op(table, rand_op(rng, st), rng, "rand")
         except Exception:  # noqa: BLE001
